@@ -255,6 +255,21 @@ PROPS = {
              "parse(strftime(t)) = t for the default format (all units, incl. the ends of the ns range) and the ten listed formats at "
              "their resolution. distinct = (generator class, length, hash bucket) / (term count, signs) / (unit, epoch quarter-century)",
     ),
+    "C19": dict(
+        bin="c19",
+        quick=[("dbg", 1.0), ("rel", 1.0), ("miri", 1.0)],
+        thorough=[("dbg", 1.0), ("rel", 1.0), ("miri", 1.0), ("mirirel", 1.0), ("asan", 1.0), ("vg", 1.0)],
+        floors={"range_int_ok.non_divisible_span": 50, "range_int_ok.empty_span": 50, "range_int_ok.divisible_span": 50,
+                "range_float_ok": 200, "linspace_ok": 50, "full_empty_ok": 10, "collect_ok": 100, "collect_opt_ok": 5,
+                "first_error_ok": 50, "write_ok": 10, "write_len_mismatch_err_ok": 10, "write_real_ok": 10, "checked_set_ok": 3},
+        technique="runtime monitoring: reference-model oracle (integer progression, positional content) + SpyOut exactly-once write log; Miri / ASan / memcheck on the raw collectors and uninit buffers incl. String elements and error injection",
+        rule="range(a,b,step) for a,b in -9..9 (and random to +-1000, extremes of i32) x steps {+-1..4,7}: i32 / Option<i32> / i64 / usize and "
+             "dyadic (exact) / non-dyadic (one-element rounding band) f64, f32 against the integer progression strictly before b; "
+             "linspace n 0..N (f64 and truncating i32); full / empty; collect_vec1 / trusted / with_len / opt / try_* into Vec, VecDeque, "
+             "Array1 incl. two errors at every position pair (first error must come back) and String items; write / write_trust_iter into "
+             "buffers of 0..N from iterators of 0, 1, len, other: SpyOut exactly-once or Err without partial state; real buffers with "
+             "String elements. distinct = (function, type, length class, direction)",
+    ),
 }
 
 for _k in list(PROPS):
